@@ -323,7 +323,8 @@ def model_instances(pid, tier):
     q = tier == "quick"
     inst = []
     if pid == "C01":
-        inst = [([PUB(1), PUB(2)], dict(faults=2)), ([SUB(("x", 1)), UNSUB("x")], dict(faults=2, sessions=(True, False)))]
+        inst = [([PUB(1), PUB(2)], dict(faults=2)), ([SUB(("x", 1)), UNSUB("x")], dict(faults=2, sessions=(True, False))),
+                ([PUB(1), PUB(0), PUB(2)], dict(faults=2, direct_qos0=True))]
         if not q:
             inst += [([PUB(0), PUB(1), PUB(2)], dict(faults=2)), ([PUB(2), SUB(("x", 1)), UNSUB("x")], dict(faults=2, sessions=(True, False))),
                      ([PUB(1), PUB(2)], dict(faults=3))]
@@ -333,7 +334,8 @@ def model_instances(pid, tier):
             inst += [([PUB(2), PUB(2)], dict(faults=3, deliver_on_rel=m)) for m in (False, True)]
             inst += [([PUB(0), PUB(2), SUB(("x", 1))], dict(faults=2, deliver_on_rel=True))]
     elif pid == "C03":
-        inst = [([PUB(1), PUB(2)], dict(faults=2)), ([PUB(0), PUB(1)], dict(faults=2))]
+        inst = [([PUB(1), PUB(2)], dict(faults=2)), ([PUB(0), PUB(1)], dict(faults=2)),
+                ([PUB(0), PUB(1), PUB(0)], dict(faults=2, direct_qos0=True))]      # DirectlyPublishQoS0: QoS >= 1 keep their order
         if not q:
             inst += [([PUB(1), PUB(0), PUB(2)], dict(faults=2)), ([SUB(("x", 1)), PUB(1), UNSUB("x")], dict(faults=2)), ([PUB(2), PUB(1)], dict(faults=3))]
     elif pid == "C08":
@@ -384,7 +386,7 @@ def run(pid, tier):
     # Layer 2 conformance: are the recorded traces behaviours of the implementation-shaped model?
     # A trace the model rejects is DRIFT (the exhaustive result below no longer transfers to this code),
     # never a verdict.  Quick: the first 10 workload groups; thorough: everything eligible.
-    l2_ok, drift, l2_states = rf.l2_validate(scs, results, max_groups=10 if tier == "quick" else 400, timeout=900)
+    l2_ok, drift, l2_states = rf.l2_validate(scs, results, max_groups=40 if tier == "quick" else 600, timeout=900)
     for sid, at, ev in drift[:5]:
         print("DRIFT property=%s trace=%s event=%d %s" % (pid, sid, at, json.dumps({k: ev[k] for k in ("e", "p", "g", "o", "fs", "tag") if ev and k in ev})))
     # Layer 2: exhaustive check of the implementation-shaped model for the property's invariants
